@@ -34,6 +34,9 @@ func C04Embed() {
 		strings.Contains(cpp, "throw std::runtime_error(\"The schema does not match any version supported by protocol Proto.\");"))
 
 	verifUseRepl("CopyEmbeddedStaticFiles")
+	// the output directories exist (natively the generators do not create them)
+	verifFsPut("/out/py/.keep", "x")
+	verifFsPut("/out/m/.keep", "x")
 	perr := pyprotocols.WriteProtocols(ns, env.SymbolTable, verifPath("/out/py"))
 	py, ok := verifFsGet("/out/py/protocols.py")
 	verifAssert("python-protocols-written", perr == nil && ok)
